@@ -306,7 +306,10 @@ struct CompressedPGMIndex<K, Epsilon, EpsilonRecursive, Floating>::CompressedLev
                     size_t prev_level_size,
                     K last_key)
         : keys(),
-          intercept_offset(*first_intercept) {
+          // The first intercept may exceed the first position by up to epsilon; cap it so that the (strictly
+          // increasing) intercepts of all the segments fit into the level below
+          intercept_offset(std::min<int64_t>(*first_intercept,
+                                             int64_t(prev_level_size) - std::distance(first_intercept, last_intercept))) {
         // If true, we need an extra segment to ensure that keys > *(last-1) are approximated to a position == n
         auto need_extra_segment = slopes_table[*std::prev(last_slope)] == 0;
 
